@@ -57,7 +57,7 @@ func (b Base) RenderParam(e *expr.Expression) (s string, params []any, err error
 	if e.Op == expr.Like {
 		rval := rparams[0].(string)
 		// keep the regexp intact if it is a // regexp
-		if len(rval) < 4 || rval[0] != '/' || rval[len(rval)-1] != '/' {
+		if len(rval) < 2 || rval[0] != '/' || rval[len(rval)-1] != '/' {
 			rval = strings.ReplaceAll(rval, "*", "%")
 			rval = strings.ReplaceAll(rval, "?", "_")
 			rparams[0] = rval
